@@ -134,8 +134,8 @@ class BinaryThermodynamics (GeneralThermodynamics):
         Both will be either float or array based off shape of gExtra
         Will return (None, None) if precipitate is unstable
         '''
-        gExtra = np.atleast_1d(gExtra)
-        gExtra += self.gOffset
+        #Out of place: np.atleast_1d returns the caller's array if it is already an array
+        gExtra = np.atleast_1d(gExtra) + self.gOffset
 
         #Compute equilibrium at guess composition
         cond = {v.X(self.elements[1]): self._guessComposition[precPhase], v.T: T, v.P: 101325, v.GE: gExtra}
